@@ -993,6 +993,13 @@ func RunDiffProgram(p *Program) *Result {
 			if same || (s.Op != "dequeue" && wm.stepViolations == 0 && ws.stepViolations == 0 && !legitSplit(s.Op)) {
 				v := viol("C13.diverge."+s.Op, "C13", "same call, same abstract state, different answers: memory {%s} sqlite {%s}", wm.last, ws.last)
 				v.Loc = "diff/" + s.Op
+				if over := wm.Cfg.MaxDepth > 0 && wm.Model.count(queue.StateQueued, queue.StateLeased) > wm.Cfg.MaxDepth; over &&
+					strings.HasSuffix(wm.last, "-> full") && strings.HasSuffix(ws.last, "-> exists") {
+					// recorded finding: two reasons to refuse hold at once (the id is taken, and an operator
+					// requeue / resume has lifted the active count above max_depth so that no eviction makes
+					// room); the backends name different ones. Both refuse, nothing changes.
+					v.Loc = "diff/" + s.Op + "/over-limit+duplicate-id/memory:full,sqlite:exists"
+				}
 				res.Violations = append(res.Violations, v)
 				res.logf("  VIOLATION %s", v.String())
 			}
